@@ -172,6 +172,13 @@ def stress_scenarios(first_tr, seed, thorough):
         s.append(dict(op='stress', workers=w, iters=it, seed=seed * 10 + tr % 7, panic_pct=pct, res=['r1', 'r2']))
         out.append(s)
         tr += 1
+    # more distinct resources than any internal bound of the library (10 000): each is accounted on its own node and on the inbound total
+    s = [dict(op='new', tr=tr, mode='stat', t=100, nodes=NODES),
+         dict(op='slot', k='pre', ord=1000, beh='real'), dict(op='slot', k='rule', ord=1, beh='script', bm='ctx'),
+         dict(op='slot', k='stat', ord=1000, beh='real'), dict(op='slot', k='stat', ord=2000, beh='pass'),
+         dict(op='manyres', n=10050 if not thorough else 25000, b=2)]
+    out.append(s)
+    tr += 1
     # first-entry race: several goroutines enter a never-seen resource at the same instant (the statistic node is created on demand)
     for mode in ('stat', 'global'):
         s = [dict(op='new', tr=tr, mode=mode, t=100, nodes=NODES, **({'iso': {}, 'hot': []} if mode == 'global' else {}))]
@@ -195,7 +202,7 @@ def nontrivial(s):
             if o['id'] in seen:
                 return True          # repeated / late exit
             seen.add(o['id'])
-        if o['op'] in ('stress', 'firstrace'):
+        if o['op'] in ('stress', 'firstrace', 'manyres'):
             return True
     return len(ent) >= 2 and any(o['op'] == 'tick' and o['d'] > 0 for o in s)
 
@@ -215,7 +222,7 @@ def binding_selftest(c, tp):
         cands = {}
         for i, e in enumerate(gl):
             st = e.get('st')
-            if not st or e['op'] in ('stress', 'firstrace'):
+            if not st or e['op'] in ('stress', 'firstrace', 'manyres'):
                 continue
             if st.get('nodes'):
                 cands.setdefault('sum', []).append(i)
